@@ -122,7 +122,8 @@ let flags_of s =
                       move [as=<method>] [nr] -- <srchex> <dsthex>
                       remove [v=cur|all|any|only:<normhex>+...] [f] -- <targethex>...      (_ = the empty content)
                       untrack -- <targethex>...
-   output: the core observation + " dirs=<hex>,..." (directory records) per item *)
+   output: the core observation + " dirs=<hex>,..." (directory records) + " clean=0|1" (the step is outside the
+   known classes of the reachability theorems) per item *)
 let () =
   iter_lines (fun line ->
       let line = Stdlib.String.trim line in
@@ -139,8 +140,11 @@ let () =
                  let r = ref (xinit (algo_of a) (method_of m) (tob_of t)) in
                  let items = Stdlib.List.filter (fun s -> Stdlib.String.trim s <> "") (Stdlib.String.split_on_char ';' rest) in
                  Stdlib.String.concat " | " (Stdlib.List.map (fun s ->
-                     let (r1, oc) = do_xitem fl !r (parse_xitem (algo_of a) s) in
-                     r := r1; xobserve r1 oc) items)
+                     let it = parse_xitem (algo_of a) s in
+                     (* is the step inside the domain of the reachability theorems (ExtReach.xclean)? *)
+                     let cl = if ExtReach.xclean !r it then "1" else "0" in
+                     let (r1, oc) = do_xitem fl !r it in
+                     r := r1; xobserve r1 oc ^ " clean=" ^ cl) items)
                | _ -> failwith "head")
           with Failure m -> "MODEL-ERROR " ^ m in
         print_string out; print_newline ()
